@@ -48,6 +48,8 @@ EXNS = {"KeyError", "IndexError", "AssertionError", "TypeError", "ValueError", "
 
 
 ENUM_TYPES: dict[str, dict[str, int]] = {}  # filled from the descriptor in rdf_pb2.py by translate_unit
+MESSAGES: dict[str, list[dict]] = {}  # message name -> fields, from the same descriptor
+TYPE_ALIASES: dict[str, ast.AST] = {}  # `X: TypeAlias = ...` of the module being translated
 
 
 def mangle(name: str) -> str:
@@ -75,7 +77,32 @@ def coq_type(t) -> str:
         return t[1]
     if isinstance(t, tuple) and t[0] == "pair":
         return f"({coq_type(t[1])} * {coq_type(t[2])})"
+    if isinstance(t, tuple) and t[0] == "tuple":
+        return "(" + " * ".join(coq_type(x) for x in t[1]) + ")"
+    if isinstance(t, tuple) and t[0] == "set":
+        return f"(list {coq_type(t[1])})"
+    if t == "msg":
+        return "(pbval K)"
     bad(None, f"no Coq type for {t}")
+
+
+def compat(t, want) -> bool:
+    """t may be used where want is expected ('?' = element type not known yet, e.g. of [])."""
+    if t == want or t == "?" or want == "?":
+        return True
+    if isinstance(t, tuple) and isinstance(want, tuple) and t[0] == want[0]:
+        if t[0] == "tuple":
+            return len(t[1]) == len(want[1]) and all(compat(a, b) for a, b in zip(t[1], want[1]))
+        if t[0] in ("seq", "set", "opt"):
+            return compat(t[1], want[1])
+    return False
+
+
+def is_mutable(t) -> bool:
+    """Values Python passes by reference and the translated source may change in place."""
+    if t == ("seq", "int"):
+        return False  # bytes
+    return t == "msg" or (isinstance(t, tuple) and t[0] in ("obj", "set", "seq"))
 
 
 def ann_type(a, classes) -> object:
@@ -90,9 +117,23 @@ def ann_type(a, classes) -> object:
             return ("seq", "int")
         if a.id in classes:
             return ("obj", a.id)
+        if a.id in TYPE_ALIASES:
+            return ann_type(TYPE_ALIASES[a.id], classes)
         bad(a, "annotation")
     if isinstance(a, ast.Attribute) and isinstance(a.value, ast.Name) and a.value.id == "jelly" and a.attr in ENUM_TYPES:
         return "int"  # protobuf enum values are ints
+    if isinstance(a, ast.Attribute) and isinstance(a.value, ast.Name) and a.value.id == "jelly" and a.attr in MESSAGES:
+        return "msg"
+    if isinstance(a, ast.Attribute) and isinstance(a.value, ast.Name) and a.value.id == "options" and a.attr in classes:
+        return ("obj", a.attr)
+    if isinstance(a, ast.Name) and a.id in TYPE_ALIASES:
+        return ann_type(TYPE_ALIASES[a.id], classes)
+    if isinstance(a, ast.Subscript) and isinstance(a.value, ast.Name) and a.value.id in ("Sequence", "list"):
+        return ("seq", ann_type(a.slice, classes))
+    if isinstance(a, ast.Subscript) and isinstance(a.value, ast.Name) and a.value.id == "set":
+        return ("set", ann_type(a.slice, classes))
+    if isinstance(a, ast.Subscript) and isinstance(a.value, ast.Name) and a.value.id == "tuple" and isinstance(a.slice, ast.Tuple) and a.slice.elts:
+        return ("tuple", [ann_type(x, classes) for x in a.slice.elts])
     if isinstance(a, ast.BinOp) and isinstance(a.op, ast.BitOr):
         l, r = ann_type(a.left, classes), ann_type(a.right, classes)
         if r == "none":
@@ -105,6 +146,20 @@ def ann_type(a, classes) -> object:
     bad(a, "annotation")
 
 
+def only_message_use(name: str, stmts: list) -> bool:
+    """Is every later read of `name` an argument of `raise X(..)` or a part of an f-string?"""
+    loads = in_msg = 0
+    for st in stmts:
+        for n in ast.walk(st):
+            if isinstance(n, ast.Name) and n.id == name and isinstance(n.ctx, ast.Load):
+                loads += 1
+            if isinstance(n, ast.Raise) and isinstance(n.exc, ast.Call):
+                in_msg += sum(1 for a in n.exc.args for x in ast.walk(a) if isinstance(x, ast.Name) and x.id == name)
+            if isinstance(n, ast.JoinedStr):
+                in_msg += sum(1 for x in ast.walk(n) if isinstance(x, ast.Name) and x.id == name)
+    return loads == in_msg
+
+
 def is_pure(e) -> bool:
     return not any(isinstance(n, (ast.Call, ast.Subscript)) for n in ast.walk(e))
 
@@ -114,6 +169,8 @@ class ClassInfo:
         self.name = name
         self.fields: list[tuple[str, object]] = []
         self.methods: dict[str, tuple[list[tuple[str, object]], object]] = {}  # name -> (params, ret)
+        self.static: set[str] = set()  # methods with in/out parameters that do not use self
+        self.defaults: dict[str, ast.AST] = {}  # dataclass field defaults (constants)
 
     def ftype(self, f):
         for n, t in self.fields:
@@ -128,6 +185,7 @@ class Translator:
         self.classes: dict[str, ClassInfo] = {}
         self.functions: dict[str, tuple[list, object]] = {}
         self.int_sets: dict[str, list] = {}
+        self.method_selection: dict[str, list[str]] = {}  # class -> the methods that belong to the unit
         self.out: list[str] = []
         self.fresh = 0
 
@@ -142,7 +200,10 @@ class Translator:
             return self.add_dataclass(node)
         info = ClassInfo(node.name)
         self.classes[node.name] = info
-        methods = [n for n in node.body if isinstance(n, ast.FunctionDef) and n.name != "__repr__"]
+        only = self.method_selection.get(node.name)
+        methods = [n for n in node.body if isinstance(n, ast.FunctionDef) and n.name != "__repr__" and (only is None or n.name in only)]
+        if only is not None and set(only) - {m.name for m in methods}:
+            bad(node, f"{node.name} no longer defines {sorted(set(only) - {m.name for m in methods})}")
         for n in node.body:
             if isinstance(n, ast.FunctionDef):
                 continue
@@ -153,11 +214,16 @@ class Translator:
             bad(n, "class-level statement")
         for m in methods:
             a = m.args
-            if a.vararg or a.kwarg or a.posonlyargs or a.defaults or any(d is not None for d in a.kw_defaults):
-                bad(m, "parameter kinds / defaults")
+            if a.vararg or a.kwarg or a.posonlyargs or any(not (isinstance(d, ast.Constant) and d.value is None) for d in a.defaults + [d for d in a.kw_defaults if d is not None]):
+                bad(m, "parameter kinds / defaults other than None")
             params = [(p.arg, ann_type(p.annotation, self.classes)) for p in (a.args[1:] + a.kwonlyargs)]
             ret = ann_type(m.returns, self.classes) if m.name != "__init__" else ("obj", node.name)
             info.methods[m.name] = (params, ret)
+            if m.name != "__init__" and any(is_mutable(t) for _, t in params):
+                # in/out parameters: only for helpers that leave self alone (no aliasing between self and the arguments)
+                if any(isinstance(x, ast.Name) and x.id == "self" for x in ast.walk(ast.Module(body=m.body, type_ignores=[]))):
+                    bad(m, "a method that both uses self and changes its arguments in place")
+                info.static.add(m.name)
         init = next((m for m in methods if m.name == "__init__"), None)
         if init is None:
             bad(node, "class without __init__")
@@ -191,6 +257,9 @@ class Translator:
         for m in order:
             params, ret = info.methods[m.name]
             env = {p: t for p, t in params}
+            if m.name in info.static:
+                emit_function(self, f"{info.name}_{m.name}", m.body, params, ret)
+                continue
             mode = MethodMode(self, info, ret)
             body = mode.stmts(m.body, env)
             ps = " ".join(f"({mangle(p)} : {coq_type(t)})" for p, t in params)
@@ -208,6 +277,12 @@ def _add_dataclass(self, node: ast.ClassDef):
             continue
         if isinstance(n, ast.AnnAssign) and isinstance(n.target, ast.Name):
             info.fields.append((n.target.id, ann_type(n.annotation, self.classes)))
+            if n.value is not None:
+                d = n.value
+                if isinstance(d, ast.Name) and d.id in self.consts:
+                    d = ast.Constant(value=self.consts[d.id])
+                if isinstance(d, ast.Constant) and (isinstance(d.value, (int, bool)) or d.value == ""):
+                    info.defaults[n.target.id] = d
             continue
         if isinstance(n, ast.FunctionDef):
             decos = [ast.unparse(d) for d in n.decorator_list]
@@ -247,17 +322,23 @@ def _add_dataclass(self, node: ast.ClassDef):
 Translator.add_dataclass = _add_dataclass
 
 
+def emit_function(tr: Translator, name: str, body_stmts: list, params: list, ret) -> None:
+    muts = [(p, t) for p, t in params if is_mutable(t)]
+    mode = FuncMode(tr, ret, muts)
+    body = mode.stmts(body_stmts, {p: t for p, t in params})
+    ps = " ".join(f"({mangle(p)} : {coq_type(t)})" for p, t in params)
+    rt = f"outcome {coq_type(ret)}" + "".join(f" * {coq_type(t)}" for _, t in muts)
+    tr.out.append(f"Definition {name} {ps} : {rt} :=\n{body}.")
+
+
 def add_function(tr: Translator, node: ast.FunctionDef):
     a = node.args
     if a.vararg or a.kwarg or a.posonlyargs or a.defaults or any(d is not None for d in a.kw_defaults):
         bad(node, "parameter kinds / defaults")
     params = [(p.arg, ann_type(p.annotation, tr.classes)) for p in (a.args + a.kwonlyargs)]
     ret = ann_type(node.returns, tr.classes)
-    mode = FuncMode(tr, ret)
-    body = mode.stmts(node.body, {p: t for p, t in params})
-    ps = " ".join(f"({mangle(p)} : {coq_type(t)})" for p, t in params)
-    tr.out.append(f"Definition {node.name} {ps} : outcome {coq_type(ret)} :=\n{body}.")
     tr.functions[node.name] = (params, ret)
+    emit_function(tr, node.name, node.body, params, ret)
 
 
 class Mode:
@@ -265,6 +346,7 @@ class Mode:
 
     def __init__(self, tr: Translator, info: ClassInfo):
         self.tr, self.info = tr, info
+        self.env_now: dict = {}
         self.on_exn = lambda e: self.ret_exn(e)
 
     # ---- to be provided
@@ -285,8 +367,56 @@ class Mode:
                 and isinstance(s.value.args[0], ast.Name) and s.value.args[0].id == "self" and isinstance(s.value.args[1], ast.Constant)
                 and isinstance(s.value.args[1].value, str) and not s.value.keywords):
             return self.expr(s.value.args[2], env, lambda v, t: self.write_field(s.value.args[1].value, v, t, lambda: self.stmts(rest, env)))
+        # <list>.append(x) / <set>.add(x) / <list|set>.clear() on a local name or on self.<field>
+        if (isinstance(s, ast.Expr) and isinstance(s.value, ast.Call) and isinstance(s.value.func, ast.Attribute)
+                and s.value.func.attr in ("append", "add", "clear", "extend") and not s.value.keywords):
+            tgt, meth = s.value.func.value, s.value.func.attr
+            cur = None
+            if isinstance(tgt, ast.Name) and isinstance(env.get(tgt.id), tuple) and env[tgt.id][0] in ("seq", "set"):
+                cur = (mangle(tgt.id), env[tgt.id])
+            elif isinstance(tgt, ast.Attribute) and isinstance(tgt.value, ast.Name) and tgt.value.id == "self" \
+                    and isinstance(self.info.ftype(tgt.attr), tuple) and self.info.ftype(tgt.attr)[0] in ("seq", "set"):
+                cur = (self.read_field(tgt.attr), self.info.ftype(tgt.attr))
+            if cur is not None:
+                cv, ct = cur
+                if (meth, ct[0]) not in (("append", "seq"), ("extend", "seq"), ("add", "set"), ("clear", "seq"), ("clear", "set")) \
+                        or len(s.value.args) != (0 if meth == "clear" else 1):
+                    bad(s, "container method")
+
+                def store(nv, nt):
+                    if isinstance(tgt, ast.Name):
+                        env2 = dict(env)
+                        env2[tgt.id] = nt
+                        return f"let {mangle(tgt.id)} := {nv} in\n{self.stmts(rest, env2)}"
+                    return self.write_field(tgt.attr, nv, nt, lambda: self.stmts(rest, env))
+                if meth == "clear":
+                    return store("[]", ct)
+
+                def k_item(v, t):
+                    if meth == "extend":
+                        if not (isinstance(t, tuple) and t[0] == "seq" and compat(t[1], ct[1])):
+                            bad(s, f"extend by {t}")
+                        return store(f"({cv} ++ {v})", (ct[0], t[1] if ct[1] == "?" else ct[1]))
+                    if not compat(t, ct[1]):
+                        bad(s, f"element of type {t} in a container of {ct[1]}")
+                    nt = (ct[0], t if ct[1] == "?" else ct[1])
+                    return store(f"({cv} ++ [{v}])" if meth == "append" else f"(set_add str_eqb {v} {cv})", nt)
+                return self.expr(s.value.args[0], env, k_item)
         if isinstance(s, ast.Expr) and isinstance(s.value, ast.Call):
             return self.expr(s.value, env, lambda v, t: self.stmts(rest, env))
+        # for x in c1, c2, ..: over a tuple of constants -- unrolled
+        if isinstance(s, ast.For):
+            if s.orelse or not isinstance(s.target, ast.Name) or not isinstance(s.iter, ast.Tuple) \
+                    or not all(isinstance(c, ast.Constant) for c in s.iter.elts) \
+                    or any(isinstance(n, (ast.Break, ast.Continue)) for b in s.body for n in ast.walk(b)):
+                bad(s, "for loop")
+            unrolled = []
+            for c in s.iter.elts:
+                a = ast.Assign(targets=[ast.Name(id=s.target.id, ctx=ast.Store())], value=c)
+                ast.copy_location(a, s)
+                ast.fix_missing_locations(a)
+                unrolled += [a] + list(s.body)
+            return self.stmts(unrolled + rest, env)
         if isinstance(s, ast.Return):
             if s.value is None:
                 return self.ret_val("tt", "none")
@@ -295,7 +425,7 @@ class Mode:
             if s.cause is not None or not (isinstance(s.exc, ast.Call) and isinstance(s.exc.func, ast.Name) and s.exc.func.id in EXNS):
                 bad(s, "raise")
             for a in s.exc.args:
-                if not (isinstance(a, ast.Name) and env.get(a.id) == "msg") and not isinstance(a, (ast.Constant, ast.JoinedStr)):
+                if not (isinstance(a, ast.Name) and env.get(a.id) == "errmsg") and not isinstance(a, (ast.Constant, ast.JoinedStr)):
                     bad(s, "raise argument")
             return self.on_exn(s.exc.func.id)
         if isinstance(s, ast.Assert):
@@ -304,9 +434,13 @@ class Mode:
                 and isinstance(s.test.left, ast.Name) and isinstance(s.test.comparators[0], ast.Constant) and s.test.comparators[0].value is None):
             x = s.test.left.id
             t = env.get(x)
+            none_b, some_b = (s.body, s.orelse) if isinstance(s.test.ops[0], ast.Is) else (s.orelse, s.body)
+            if t == "none":  # this copy of the continuation knows the variable holds None
+                return self.stmts(none_b + rest, env)
+            if t in ("int", "str", "bool") or (isinstance(t, tuple) and t[0] in ("obj", "seq", "set", "tuple")):
+                return self.stmts(some_b + rest, env)
             if not (isinstance(t, tuple) and t[0] == "opt"):
                 bad(s, "is None on a non-optional")
-            none_b, some_b = (s.body, s.orelse) if isinstance(s.test.ops[0], ast.Is) else (s.orelse, s.body)
             env_some = dict(env)
             env_some[x] = t[1]
             return (f"match {mangle(x)} with\n| None =>\n{self.stmts(none_b + rest, dict(env))}\n| Some {mangle(x)} =>\n{self.stmts(some_b + rest, env_some)}\nend")
@@ -356,41 +490,55 @@ class Mode:
                     if t != "int":
                         bad(s, "enum Name of a non-int")
                     env2 = dict(env)
-                    env2[tgt.id] = "msg"
+                    env2[tgt.id] = "errmsg"
                     test = "(" + " || ".join(f"({v} =? {n})" for n in nums) + ")"
                     return f"if {test} then\n{self.stmts(rest, env2)}\nelse {self.on_exn('ValueError')}"
                 return self.expr(val.args[0], env, k_en)
             # message strings
-            if isinstance(tgt, ast.Name) and isinstance(val, (ast.JoinedStr, ast.Constant)) and (isinstance(val, ast.JoinedStr) or isinstance(val.value, str)):
+            if isinstance(tgt, ast.Name) and isinstance(val, (ast.JoinedStr, ast.Constant)) and (isinstance(val, ast.JoinedStr) or isinstance(val.value, str)) \
+                    and (isinstance(val, ast.JoinedStr) or only_message_use(tgt.id, rest)):
                 if isinstance(val, ast.JoinedStr):
                     for part in val.values:
                         if isinstance(part, ast.FormattedValue) and not is_pure(part.value):
                             bad(s, "effect inside an f-string")
                 env2 = dict(env)
-                env2[tgt.id] = "msg"
+                env2[tgt.id] = "errmsg"
                 return self.stmts(rest, env2)
             if isinstance(tgt, ast.Name):
                 def k(v, t, tgt=tgt):
                     env2 = dict(env)
+                    if isinstance(s, ast.AnnAssign):
+                        try:
+                            at = ann_type(s.annotation, self.tr.classes)
+                        except Unsupported:
+                            at = None  # an annotation outside the subset on a local: the inferred type stands
+                        if at is not None and compat(t, at):
+                            t = at
                     env2[tgt.id] = t
+                    if t == "none":
+                        v = "tt"  # a variable known to hold None: nothing reads its value (tests on it are decided statically)
                     return f"let {mangle(tgt.id)} := {v} in\n{self.stmts(rest, env2)}"
                 return self.expr(val, env, k)
-            if isinstance(tgt, ast.Tuple) and all(isinstance(e, ast.Name) for e in tgt.elts) and len(tgt.elts) == 2:
+            if isinstance(tgt, ast.Tuple) and all(isinstance(e, ast.Name) for e in tgt.elts) and len(tgt.elts) >= 2:
                 def k(v, t, tgt=tgt):
-                    if not (isinstance(t, tuple) and t[0] == "pair"):
-                        bad(s, "unpacking a non-pair")
+                    ts = list(t[1:]) if isinstance(t, tuple) and t[0] == "pair" else t[1] if isinstance(t, tuple) and t[0] == "tuple" else None
+                    if ts is None or len(ts) != len(tgt.elts):
+                        bad(s, "unpacking a value that is not a tuple of that length")
                     env2 = dict(env)
                     names = []
-                    for e, et in zip(tgt.elts, t[1:]):
+                    for e, et in zip(tgt.elts, ts):
                         if e.id != "_":
                             env2[e.id] = et
                         names.append(mangle(e.id))
-                    return f"let '({names[0]}, {names[1]}) := {v} in\n{self.stmts(rest, env2)}"
+                    return f"let '({', '.join(names)}) := {v} in\n{self.stmts(rest, env2)}"
                 return self.expr(val, env, k)
             if isinstance(tgt, ast.Attribute) and isinstance(tgt.value, ast.Name) and tgt.value.id == "self":
                 def k_fld(v, t):
-                    if isinstance(s, ast.AnnAssign) and ann_type(s.annotation, self.tr.classes) != t:
-                        bad(s, f"annotation disagrees with the inferred type {t}")
+                    if isinstance(s, ast.AnnAssign):
+                        at = ann_type(s.annotation, self.tr.classes)
+                        if not compat(t, at):
+                            bad(s, f"annotation disagrees with the inferred type {t}")
+                        t = at
                     return self.write_field(tgt.attr, v, t, lambda: self.stmts(rest, env))
                 return self.expr(val, env, k_fld)
             if (isinstance(tgt, ast.Subscript) and isinstance(tgt.value, ast.Attribute) and isinstance(tgt.value.value, ast.Name)
@@ -475,22 +623,27 @@ class Mode:
                 return k(f"(negb (str_is_empty {v}))")
             if isinstance(t, tuple) and t[0] == "opt":
                 return k(f"(match {v} with Some _ => true | None => false end)")
+            if isinstance(t, tuple) and t[0] in ("seq", "set"):
+                return k(f"(negb (seq_len {v} =? 0))")
+            if t == "none":
+                return k("false")
             bad(e, f"truth value of {t}")
         return self.expr(e, env, truth)
 
     # ---- expressions (CPS: k(value, type))
     def coerce(self, v, t, want, node):
-        if t == want:
+        if compat(t, want):
             return v
         if isinstance(want, tuple) and want[0] == "opt":
             if t == "none":
                 return "None"
-            if t == want[1]:
+            if compat(t, want[1]):
                 return f"(Some {v})"
         bad(node, f"a value of type {t} where {want} is expected")
 
     def expr(self, e, env, k) -> str:
         tr = self.tr
+        self.env_now = env
         if isinstance(e, ast.Constant):
             if isinstance(e.value, bool):
                 return k("true" if e.value else "false", "bool")
@@ -500,10 +653,23 @@ class Mode:
                 return k("None", "none")
             if e.value == "":
                 return k("str_empty", "str")
+            if isinstance(e.value, str):
+                return k("(str_lit [" + "; ".join(str(ord(c)) for c in e.value) + "])", "str")
             bad(e, "constant")
+        if isinstance(e, ast.Tuple):
+            if not e.elts:
+                return k("[]", ("seq", "?"))  # the empty tuple is only used as an empty sequence of rows
+
+            def go_t(rest, vs, ts):
+                if not rest:
+                    return k("(" + ", ".join(vs) + ")", ("tuple", ts)) if len(vs) > 1 else k(f"[{vs[0]}]", ("seq", ts[0]))
+                return self.expr(rest[0], env, lambda v, t: go_t(rest[1:], vs + [v], ts + [t]))
+            return go_t(list(e.elts), [], [])
+        if isinstance(e, ast.List) and not e.elts:
+            return k("[]", ("seq", "?"))
         if isinstance(e, ast.Name):
             if e.id in env:
-                if env[e.id] == "msg":
+                if env[e.id] == "errmsg":
                     bad(e, "message string used as a value")
                 return k(mangle(e.id), env[e.id])
             if e.id in tr.consts:
@@ -525,7 +691,9 @@ class Mode:
             if isinstance(e.op, (ast.Add, ast.Sub)):
                 op = "+" if isinstance(e.op, ast.Add) else "-"
                 return self.expr(e.left, env, lambda a, at: self.expr(e.right, env, lambda b, bt: (
-                    k(f"({a} {op} {b})", "int") if (at, bt) == ("int", "int") else bad(e, "arithmetic on non-ints"))))
+                    k(f"({a} {op} {b})", "int") if (at, bt) == ("int", "int")
+                    else k(f"(str_add {a} {b})", "str") if (at, bt) == ("str", "str") and op == "+"
+                    else bad(e, "arithmetic on non-ints"))))
             bad(e, "binary operator")
         if isinstance(e, ast.UnaryOp) and isinstance(e.op, ast.Not):
             return self.cond(e, env, lambda c: k(c, "bool"))
@@ -641,6 +809,12 @@ class Mode:
             if t is None:
                 bad(e, "unknown field")
             return self.read_field(e.attr), t
+        if isinstance(e.value, ast.Name) and isinstance(self.env_now.get(e.value.id), tuple) and self.env_now[e.value.id][0] == "obj":
+            sub = self.tr.classes[self.env_now[e.value.id][1]]
+            ft = sub.ftype(e.attr)
+            if ft is None:
+                bad(e, "unknown field of a local object")
+            return f"({sub.name}_{e.attr} {mangle(e.value.id)})", ft
         if isinstance(e.value, ast.Attribute):
             v, t = self.attr(e.value)
             if isinstance(t, tuple) and t[0] == "obj":
@@ -669,11 +843,63 @@ class Mode:
             return self.expr(ex, env, lambda v, t: go(rest[1:], acc + [self.coerce(v, t, pt, call)]))
         return go(exprs, [])
 
+    def call_static(self, fname, e, params, ret, env, k) -> str:
+        """A helper whose mutable parameters (objects, sets, lists, messages) come back updated:
+        fname args : outcome R * M1 * .. * Mn.  Every mutable argument must be an lvalue (self.f or a local
+        name), all distinct; it is written back after the call, also when the call raised."""
+        tr = self.tr
+        r, ex, x = tr.gensym("r"), tr.gensym("e"), tr.gensym("x")
+        by_name = {kw.arg: kw.value for kw in e.keywords}
+        actuals = []
+        for i, (p, pt) in enumerate(params):
+            a = e.args[i] if i < len(e.args) else by_name.get(p)
+            if a is None:
+                bad(e, f"missing argument {p}")
+            actuals.append(a)
+        if len(e.args) + len(e.keywords) != len(params):
+            bad(e, "argument count")
+        muts = [(a, pt) for a, (p, pt) in zip(actuals, params) if is_mutable(pt)]
+        keys = []
+        for a, _ in muts:
+            if isinstance(a, ast.Name) and a.id in env:
+                keys.append(("local", a.id))
+            elif isinstance(a, ast.Attribute) and isinstance(a.value, ast.Name) and a.value.id == "self":
+                keys.append(("field", a.attr))
+            else:
+                bad(e, "an object passed to be changed in place must be self.<field> or a local name")
+        if len(set(keys)) != len(keys):
+            bad(e, "the same object passed twice to be changed in place")
+        outs = [tr.gensym("m") for _ in muts]
+
+        def after(a):
+            code = f"let '({', '.join([r] + outs)}) := {fname} {' '.join(a)} in\n"
+            env2 = env
+            wb = []
+            for (kind, name), o, (_, pt) in zip(keys, outs, muts):
+                if kind == "local":
+                    code += f"let {mangle(name)} := {o} in\n"
+                else:
+                    wb.append((name, o, pt))
+
+            def rest_code():
+                return f"match {r} with\n| Exn {ex} => {self.on_exn(ex)}\n| Val {x} =>\n{k('tt' if ret == 'none' else x, ret)}\nend"
+
+            def chain(i):
+                if i == len(wb):
+                    return rest_code()
+                name, o, pt = wb[i]
+                return self.write_field(name, o, pt, lambda: chain(i + 1))
+            return code + chain(0)
+        return self.args(e, params, env, after)
+
     def call(self, e, env, k) -> str:
         tr = self.tr
         f = e.func
         r, o, ex, x = tr.gensym("r"), tr.gensym("o"), tr.gensym("e"), tr.gensym("x")
         # module-level functions of the unit
+        if isinstance(f, ast.Name) and f.id in tr.functions and any(is_mutable(t) for _, t in tr.functions[f.id][0]):
+            params, ret = tr.functions[f.id]
+            return self.call_static(f.id, e, params, ret, env, k)
         if isinstance(f, ast.Name) and f.id in tr.functions:
             params, ret = tr.functions[f.id]
             return self.args(e, params, env, lambda a: (
@@ -693,7 +919,7 @@ class Mode:
             def k_len(v, t):
                 if t == "od":
                     return k(f"(od_len {v})", "int")
-                if isinstance(t, tuple) and t[0] == "seq":
+                if isinstance(t, tuple) and t[0] in ("seq", "set"):
                     return k(f"(seq_len {v})", "int")
                 bad(e, "len of this type")
             return self.expr(e.args[0], env, k_len)
@@ -709,13 +935,61 @@ class Mode:
             return self.expr(e.args[0], env, lambda it, itt: self.expr(e.keywords[0].value, env, lambda n, nt: (
                 f"match deque_make {it} {n} with\n| Exn {ex} => {self.on_exn(ex)}\n| Val {x} =>\n{k(x, itt)}\nend"
                 if nt == "int" and isinstance(itt, tuple) and itt[0] == "seq" else bad(e, "deque arguments"))))
+        if isinstance(f, ast.Name) and f.id == "set" and not e.args and not e.keywords:
+            return k("[]", ("set", "?"))
         if not isinstance(f, ast.Attribute):
             bad(e, "call")
+        # jelly.<Message>(field=value, ..): a protobuf message object
+        if isinstance(f.value, ast.Name) and f.value.id == "jelly" and f.attr in MESSAGES and not e.args:
+            fields = {d["name"]: d for d in MESSAGES[f.attr]}
+
+            def go_m(rest, acc):
+                if not rest:
+                    return k(f'(PMsg "{f.attr}"%string [' + "; ".join(acc) + "])", "msg")
+                kw = rest[0]
+                if kw.arg not in fields:
+                    bad(e, f"{f.attr} has no field {kw.arg}")
+
+                def k_v(v, t):
+                    w = {"int": "PInt", "bool": "PBool", "str": "PStr"}.get(t)
+                    if w is None and t != "msg":
+                        bad(e, f"message field of type {t}")
+                    return go_m(rest[1:], acc + [f'("{kw.arg}"%string, {f"{w} {v}" if w else v})'])
+                return self.expr(kw.value, env, k_v)
+            return go_m(list(e.keywords), [])
+        # options.<Class>(..): a class of pyjelly/options.py, defaults for the arguments left out
+        if isinstance(f.value, ast.Name) and f.value.id == "options" and f.attr in tr.classes:
+            cls = tr.classes[f.attr]
+            params, _ = cls.methods["__init__"]
+            given = {kw.arg for kw in e.keywords}
+            if e.args or not given <= {p for p, _ in params}:
+                bad(e, "constructor arguments")
+            filled = ast.Call(func=f, args=[], keywords=list(e.keywords) + [ast.keyword(arg=p, value=cls.defaults[p]) for p, _ in params
+                                                                           if p not in given and p in cls.defaults])
+            return self.args(filled, params, env, lambda a: (
+                f"match {cls.name}___init__ {' '.join(a)} with\n| Exn {ex} => {self.on_exn(ex)}\n| Val {o} =>\n{k(o, ('obj', cls.name))}\nend"))
+        # <local str>.rpartition(sep)
+        if isinstance(f.value, ast.Name) and env.get(f.value.id) == "str" and f.attr == "rpartition" and len(e.args) == 1 and not e.keywords:
+            return self.expr(e.args[0], env, lambda sp, st: (
+                f"match str_rpartition {mangle(f.value.id)} {sp} with\n| Exn {ex} => {self.on_exn(ex)}\n| Val {x} =>\n{k(x, ('tuple', ['str', 'str', 'str']))}\nend"
+                if st == "str" else bad(e, "rpartition separator")))
+        # <local object>.m(..): the object is a parameter or a local, updated in place
+        if isinstance(f.value, ast.Name) and isinstance(env.get(f.value.id), tuple) and env[f.value.id][0] == "obj":
+            sub = tr.classes[env[f.value.id][1]]
+            if f.attr not in sub.methods or f.attr == "__init__" or f.attr in sub.static:
+                bad(e, "unknown method of a local object")
+            params, ret = sub.methods[f.attr]
+            nm = mangle(f.value.id)
+            return self.args(e, params, env, lambda a: (
+                f"let '({r}, {nm}) := {sub.name}_{f.attr} {' '.join(a)} {nm} in\nmatch {r} with\n| Exn {ex} => {self.on_exn(ex)}\n"
+                f"| Val {x} =>\n{k('tt' if ret == 'none' else x, ret)}\nend"))
         # self.m(..)
         if isinstance(f.value, ast.Name) and f.value.id == "self":
             if f.attr not in self.info.methods or f.attr == "__init__":
                 bad(e, "unknown method")
             params, ret = self.info.methods[f.attr]
+            if f.attr in self.info.static:
+                return self.call_static(f"{self.info.name}_{f.attr}", e, params, ret, env, k)
             return self.args(e, params, env, lambda a: self.call_self(f.attr, a, ret, r, ex, x, k))
         # self.f.m(..): a built-in container or an owned object
         if isinstance(f.value, ast.Attribute) and isinstance(f.value.value, ast.Name) and f.value.value.id == "self":
@@ -781,21 +1055,25 @@ class MethodMode(Mode):
 class FuncMode(Mode):
     """A module-level function: no object state; the result is outcome R."""
 
-    def __init__(self, tr, ret):
-        super().__init__(tr, None)
+    def __init__(self, tr, ret, muts=()):
+        super().__init__(tr, ClassInfo("<function>"))
         self.ret = ret
+        self.muts = list(muts)  # in/out parameters: their current values go back with every result
+
+    def wrap(self, o):
+        return "(" + ", ".join([o] + [mangle(p) for p, _ in self.muts]) + ")" if self.muts else o
 
     def ret_val(self, v, t):
-        return f"Val {self.coerce(v, t, self.ret, None)}"
+        return self.wrap(f"Val {self.coerce(v, t, self.ret, None)}")
 
     def ret_exn(self, e):
-        return f"Exn {e}"
+        return self.wrap(f"Exn {e}")
 
     def fall_off(self):
         if self.ret == "none":
-            return "Val tt"
+            return self.wrap("Val tt")
         if isinstance(self.ret, tuple) and self.ret[0] == "opt":
-            return "Val None"
+            return self.wrap("Val None")
         bad(None, f"a function returning {self.ret} can end without a return")
 
     def read_field(self, f):
@@ -864,16 +1142,21 @@ def module_consts(path: Path) -> dict[str, int]:
 ALLOWED_IMPORTS = {"__future__", "collections", "dataclasses", "typing", "mypy_extensions", "pyjelly.errors", "pyjelly.options"}
 
 
+
 CTX_STR = ("Context (S : strops).\nNotation K := (carrier S).\nNotation str_eqb := (s_eqb S).\nNotation str_is_empty := (s_is_empty S).\n"
            "Notation str_empty := (s_empty S).\nNotation str_add := (s_add S).\nNotation str_rpartition := (s_rpartition S).\n"
            "Notation str_lit := (s_lit S).")
 CTX_TOKENS = re.compile(r"\b(K|str_eqb|str_is_empty|str_empty|str_add|str_rpartition|str_lit)\b")
 UNITS = {
-    # unit -> (source file, items to translate (None = every class of the file), section context)
-    "lookup_enc": ("pyjelly/serialize/lookup.py", None, CTX_STR),
-    "lookup_dec": ("pyjelly/parse/lookup.py", None, CTX_STR),
-    "hint": ("pyjelly/parse/ioutils.py", ["delimited_jelly_hint"], None),
-    "options": ("pyjelly/options.py", ["TRIPLES_ONLY_LOGICAL_TYPES", "validate_type_compatibility", "LookupPreset", "StreamTypes", "StreamParameters"], CTX_STR),
+    # unit -> source file, items to translate (None = every class of the file; a (class, [methods]) pair selects
+    # methods), whether the definitions are parametric in the string structure S, the units it builds on
+    "lookup_enc": {"src": "pyjelly/serialize/lookup.py", "items": None, "ctx": True, "uses": [], "gen": "LookupEncGen"},
+    "lookup_dec": {"src": "pyjelly/parse/lookup.py", "items": None, "ctx": True, "uses": [], "gen": "LookupDecGen"},
+    "hint": {"src": "pyjelly/parse/ioutils.py", "items": ["delimited_jelly_hint"], "ctx": False, "uses": [], "gen": "HintGen"},
+    "options": {"src": "pyjelly/options.py", "ctx": True, "uses": [], "gen": "OptionsGen",
+                "items": ["TRIPLES_ONLY_LOGICAL_TYPES", "validate_type_compatibility", "LookupPreset", "StreamTypes", "StreamParameters"]},
+    "encode": {"src": "pyjelly/serialize/encode.py", "ctx": True, "uses": ["lookup_enc", "options"], "gen": "EncodeGen",
+               "items": ["split_iri", ("TermEncoder", ["__init__", "start_statement", "_entry_index", "encode_iri_indices"])]},
 }
 
 
@@ -887,25 +1170,69 @@ def item_name(n):
     return None
 
 
-def translate_unit(repo: Path, unit: str) -> str:
+def s_dependence(out: list[str], uses: set[str]) -> tuple[set[str], list[str]]:
+    """Which definitions depend on the string structure S (they take it as their first argument once the
+    section is closed; for record projections and constructors it is made implicit)."""
+    uses = set(uses)
+    implicit: list[str] = []
+    for item in out:
+        m = re.match(r"(Record|Definition) (\w+)", item)
+        if not m:
+            continue
+        body = item[m.end():]
+        dep = bool(CTX_TOKENS.search(body)) or any(re.search(r"\b" + re.escape(u) + r"\b", body) for u in uses)
+        if not dep:
+            continue
+        uses.add(m.group(2))
+        if m.group(1) == "Record":
+            mk = re.search(r":= (\w+) \{", item).group(1)
+            projs = re.findall(r"[{;] (\w+) :", item)
+            uses.update([mk] + projs)
+            implicit += [mk] + projs
+    return uses, implicit
+
+
+def run_unit(repo: Path, unit: str) -> tuple["Translator", set[str], list[str]]:
+    """Translate one unit (and, for their signatures, the units it builds on)."""
     import pbdesc
 
-    rel, items, context = UNITS[unit]
+    u = UNITS[unit]
+    rel = u["src"]
     f = repo / rel
     ENUM_TYPES.clear()
     ENUM_TYPES.update(pbdesc.enums(repo / "pyjelly/jelly/rdf_pb2.py"))
+    MESSAGES.clear()
+    MESSAGES.update(pbdesc.messages(repo / "pyjelly/jelly/rdf_pb2.py"))
     opts = module_consts(repo / "pyjelly/options.py")
     tr = Translator(dict(opts) if rel == "pyjelly/options.py" else {})
+    imported_uses: set[str] = set()
+    tr.abbrev: list[str] = []
+    for dep in u["uses"]:
+        dtr, duses, dimpl = run_unit(repo, dep)
+        tr.classes.update(dtr.classes)
+        tr.functions.update(dtr.functions)
+        explicit = sorted(duses - set(dimpl))
+        tr.abbrev += [f"Notation {n} := ({UNITS[dep]['gen']}.{n} S)." for n in explicit]
+        imported_uses |= set(explicit)
+    # re-establish this unit's globals (a dependency run overwrote them)
+    TYPE_ALIASES.clear()
+    items = u["items"]
+    names = None if items is None else [i if isinstance(i, str) else i[0] for i in items]
+    for i in items or []:
+        if not isinstance(i, str):
+            tr.method_selection[i[0]] = i[1]
     mod = ast.parse(f.read_text())
     chosen = []
     for n in mod.body:
+        if isinstance(n, ast.AnnAssign) and isinstance(n.target, ast.Name) and ast.unparse(n.annotation) == "TypeAlias" and n.value is not None:
+            TYPE_ALIASES[n.target.id] = n.value
         if isinstance(n, ast.ImportFrom) and n.module == "pyjelly.options":
             for a in n.names:
                 if a.asname:
                     bad(n, "import alias")
                 if a.name in opts:
                     tr.consts[a.name] = opts[a.name]
-        if items is None:
+        if names is None:
             # the whole file is the unit: nothing but imports, docstrings and classes may be there
             if isinstance(n, ast.ImportFrom):
                 if n.module not in ALLOWED_IMPORTS:
@@ -914,17 +1241,17 @@ def translate_unit(repo: Path, unit: str) -> str:
                 chosen.append(n)
             elif not (isinstance(n, ast.Expr) and isinstance(n.value, ast.Constant)):
                 bad(n, "module-level statement")
-        elif item_name(n) in items:
+        elif item_name(n) in names:
             chosen.append(n)
-    if items is not None:
-        missing = set(items) - {item_name(n) for n in chosen}
+    if names is not None:
+        missing = set(names) - {item_name(n) for n in chosen}
         if missing:
             bad(None, f"{rel} no longer defines {sorted(missing)}")
         # dependencies first (an item that mentions another one comes after it)
-        names = {item_name(n) for n in chosen}
+        cn = {item_name(n) for n in chosen}
 
         def deps(n):
-            return {x.id for x in ast.walk(n) if isinstance(x, ast.Name) and x.id in names} - {item_name(n)}
+            return {x.id for x in ast.walk(n) if isinstance(x, ast.Name) and x.id in cn} - {item_name(n)}
 
         ordered, rest = [], list(chosen)
         while rest:
@@ -947,35 +1274,25 @@ def translate_unit(repo: Path, unit: str) -> str:
             tr.int_sets[item_name(n)] = list(n.value.elts)
         else:
             bad(n, "module-level item")
+    uses, implicit = s_dependence(tr.out, imported_uses) if u["ctx"] else (set(), [])
+    return tr, uses - imported_uses, implicit
+
+
+def translate_unit(repo: Path, unit: str) -> str:
+    u = UNITS[unit]
+    tr, uses, implicit = run_unit(repo, unit)
     head = [
-        f"(* GENERATED by /verif/translate/py2v.py from {rel} -- do not edit. *)",
+        f"(* GENERATED by /verif/translate/py2v.py from {u['src']} -- do not edit. *)",
         "From PJ.Tie Require Import PyPrims.",
-        "Local Open Scope Z_scope.",
-        "Local Open Scope bool_scope.",
     ]
-    if not context:
+    if u["uses"]:
+        head.append("From PJ.Gen Require Import " + " ".join(UNITS[d]["gen"] for d in u["uses"]) + ".")
+    head += ["Local Open Scope Z_scope.", "Local Open Scope bool_scope."]
+    if not u["ctx"]:
         return "\n".join(head + tr.out) + "\n"
-    # which definitions depend on the string structure S (they take it as their first argument once the
-    # section is closed; for record projections and constructors it is made implicit)
-    uses: set[str] = set()
-    implicit: list[str] = []
-    for item in tr.out:
-        m = re.match(r"(Record|Definition) (\w+)", item)
-        if not m:
-            continue
-        body = item[m.end():]
-        dep = bool(CTX_TOKENS.search(body)) or any(re.search(r"\b" + re.escape(u) + r"\b", body) for u in uses)
-        if not dep:
-            continue
-        uses.add(m.group(2))
-        if m.group(1) == "Record":
-            mk = re.search(r":= (\w+) \{", item).group(1)
-            projs = re.findall(r"[{;] (\w+) :", item)
-            uses.update([mk] + projs)
-            implicit += [mk] + projs
     tail = ["End Gen."] + [f"Arguments {n} {{S}}." for n in implicit]
     tail.append("(* definitions that take the string structure S as their first argument: " + " ".join(sorted(uses - set(implicit))) + " *)")
-    return "\n".join(head + ["Section Gen.", context] + tr.out + tail) + "\n"
+    return "\n".join(head + ["Section Gen.", CTX_STR] + tr.abbrev + tr.out + tail) + "\n"
 
 
 def main() -> int:
